@@ -7,6 +7,7 @@
                               by the harness's own walk over the nested data elements) and its
                               attribute ids
      connect(c, mtu)          client c's SDP channel is open; mtu = what the server may send to it
+     disconnect(c)            client c (no transaction in progress) has closed its SDP channel
      query(c, kind, pat, h, ids, total)
                               client API called: kind "search" | "attr" | "sattr", pattern (UUID
                               identities), record, attribute id ranges; total = number of units
@@ -69,6 +70,10 @@ ConnectEv == /\ Ev.e = "connect" /\ sub = 0
              /\ Connect(Ev.c, Ev.mtu)
              /\ Keep /\ UNCHANGED sub
 
+DisconnectEv == /\ Ev.e = "disconnect" /\ sub = 0
+                /\ Disconnect(Ev.c)
+                /\ Keep /\ UNCHANGED sub
+
 QueryEv == /\ Ev.e = "query" /\ sub = 0
            /\ LET qq == [kind |-> Ev.kind, pat |-> Ev.pat, h |-> Ev.h, ids |-> Ev.ids] IN
               /\ q' = [q EXCEPT ![Ev.c] = qq]
@@ -115,7 +120,7 @@ ResultEv == /\ Ev.e = "result" /\ sub = 0
 
 \* RspServe must not advance l: the same event is consumed by RspRecv
 TraceStep == \/ /\ l <= Len(T) /\ sub = 0
-                /\ \/ RecordsEv \/ ConnectEv \/ QueryEv \/ ErrEv \/ ResultEv
+                /\ \/ RecordsEv \/ ConnectEv \/ DisconnectEv \/ QueryEv \/ ErrEv \/ ResultEv
                 /\ l' = l + 1 /\ tid' = tid
              \/ /\ l <= Len(T) /\ RspServe /\ UNCHANGED <<l, tid>>
              \/ /\ l <= Len(T) /\ RspRecv /\ l' = l + 1 /\ tid' = tid
